@@ -349,14 +349,20 @@ Fixpoint rules_then_groups (order : list wref) (in_groups : bool) : bool :=
   | w :: rest => if is_wrule w then negb in_groups && rules_then_groups rest false else rules_then_groups rest true
   end.
 
+(* every write of the (trimmed) patch, rules first; the keys are pairwise different, so the storage a
+   complete savePatch leaves does not depend on the order Go's map iteration picked *)
+Definition save_all (p : patch) (s : storage) : storage :=
+  fold_left (fun s kg => apply_group_write kg s) (m_groups p)
+            (fold_left (fun s kr => apply_rule_write kr s) (m_rules p) s).
+
 Definition save_patch (p : patch) (order : list wref) (f : fault) (s : storage) : storage * bool * bool :=
-  let '(s', failed, ok) := save_writes p order 1 f s [] in
+  let '(s_along, failed, ok) := save_writes p order 1 f s [] in
   let total := (length (m_rules p) + length (m_groups p))%nat in
   let nrules := length (filter is_wrule order) in
   let complete := if failed then (* everything before the failing write was issued; rules all before groups *)
                     (nrules =? length (m_rules p))%nat || (nrules =? length order)%nat
                   else (length order =? total)%nat in
-  (s', failed, ok && complete && rules_then_groups order false).
+  ((if failed then s_along else save_all p s), failed, ok && complete && rules_then_groups order false).
 
 (* ---------- the manager ---------- *)
 Record manager := Manager { m_conf : config; m_list : list range }.
@@ -514,6 +520,7 @@ Definition init_state := State None (Storage [] []).
 Inductive op :=
 | ORestart (max_replicas : Z)                              (* a fresh RuleManager, Initialize from the storage *)
 | OUpdate (u : update) (f : fault) (worder : list wref)    (* worder = the storage writes the implementation issued *)
+| ORetry (u : update) (worder : list wref)                 (* the client repeats the update that just failed with a storage error *)
 | OCorruptRule (k : id * id) (v : sval)                    (* somebody else writes into rules/<k> *)
 | OCorruptDrop (k : id * id).
 
@@ -569,6 +576,19 @@ Definition reload_dump (s : storage) : option dump :=
 Definition observe (r : res) (st : state) : obs :=
   Obs r (option_map dump_of (st_live st)) (reload_dump (st_store st)).
 
+Definition step_update (st : state) (u : update) (f : fault) (worder : list wref) : state * obs :=
+  match st_live st with
+  | None => (st, observe (RErr ENotInit) st)
+  | Some m =>
+      match make_patch (m_conf m) u with
+      | None => (st, observe (if is_nil worder then RErr EContent else RBadOrder) st)
+      | Some p =>
+          let '(m', s', e, ok) := try_commit m (st_store st) p worder f in
+          let st' := State (Some m') s' in
+          (st', observe (if ok then match e with Some e => RErr e | None => ROk end else RBadOrder) st')
+      end
+  end.
+
 Definition step (st : state) (o : op) : state * obs :=
   match o with
   | ORestart mr =>
@@ -577,18 +597,8 @@ Definition step (st : state) (o : op) : state * obs :=
       | inl m => let st' := State (Some m) s' in (st', observe ROk st')
       | inr e => let st' := State None s' in (st', observe (RErr e) st')
       end
-  | OUpdate u f worder =>
-      match st_live st with
-      | None => (st, observe (RErr ENotInit) st)
-      | Some m =>
-          match make_patch (m_conf m) u with
-          | None => (st, observe (if is_nil worder then RErr EContent else RBadOrder) st)
-          | Some p =>
-              let '(m', s', e, ok) := try_commit m (st_store st) p worder f in
-              let st' := State (Some m') s' in
-              (st', observe (if ok then match e with Some e => RErr e | None => ROk end else RBadOrder) st')
-          end
-      end
+  | OUpdate u f worder => step_update st u f worder
+  | ORetry u worder => step_update st u None worder
   | OCorruptRule k v =>
       let st' := State (st_live st) (Storage (mset pair_cmp k v (s_rules (st_store st))) (s_groups (st_store st))) in
       (st', observe ROk st')
@@ -646,6 +656,7 @@ Definition rules_of_op (o : op) : list rule :=
   match o with
   | ORestart mr => [default_rule mr]
   | OUpdate u _ _ => rules_of_update u
+  | ORetry u _ => rules_of_update u
   | OCorruptRule _ (SVRule r) => [r]
   | _ => []
   end.
@@ -749,25 +760,44 @@ Definition is_fault_free (o : op) : bool :=
   | _ => false
   end.
 
-(* walk the trace: prev = live dump before the step; clean = no storage fault / foreign write so far *)
-Fixpoint monitor_walk (known : list rule) (prev : option dump) (clean : bool) (ops : list op) (obs_l : list obs) : list string :=
+(* walk the trace: prev = live dump before the step; clean = storage and served state are expected to
+   agree (no storage fault / foreign write since the last point where they did); retryable = the previous
+   step was a storage failure of an update issued from a clean state *)
+Fixpoint monitor_walk (known : list rule) (prev : option dump) (clean retryable : bool) (ops : list op) (obs_l : list obs) : list string :=
   match ops, obs_l with
   | o :: ops', b :: obs' =>
-      let clean' := clean && is_fault_free o in
+      let ok_res := match o_res b with ROk => true | _ => false end in
+      let clean' := match o with
+                    | ORetry _ _ => retryable && ok_res
+                    | _ => clean && is_fault_free o
+                    end in
+      let retryable' := match o, o_res b with
+                        | OUpdate _ (Some _) _, RErr EStorage => clean
+                        | ORetry _ _, RErr EStorage => retryable
+                        | _, _ => false
+                        end in
       let here :=
         match o, o_res b, prev, o_live b with
         | OUpdate _ _ _, RErr EStorage, Some p, Some l => dump_diff "C13:failed-save-changed-" p l
         | OUpdate _ _ _, RErr _, Some p, Some l => dump_diff "C13:rejected-update-changed-" p l
+        | ORetry _ _, RErr _, Some p, Some l => dump_diff "C13:rejected-update-changed-" p l
         | OUpdate _ _ _, ROk, _, Some l =>
             monitor_index known l ++ monitor_coverage known l ++
             (if clean' then match o_reload b with
                             | Some r => dump_diff "C13:restart-loads-different-" l r
                             | None => ["C13:restart-fails-after-accepted-update"]
                             end else [])
+        | ORetry _ _, ROk, _, Some l =>
+            monitor_index known l ++ monitor_coverage known l ++
+            (if clean' then match o_reload b with
+                            | Some r => dump_diff "C13:retry-does-not-converge-" l r
+                            | None => ["C13:restart-fails-after-retried-update"]
+                            end else [])
         | ORestart _, ROk, _, Some l => monitor_index known l
+        | ORestart _, RErr _, _, _ => if clean' then ["C13:initialize-fails-on-own-storage"] else []
         | _, _, _, _ => []
         end in
-      here ++ monitor_walk known (o_live b) clean' ops' obs'
+      here ++ monitor_walk known (o_live b) clean' retryable' ops' obs'
   | _, _ => []
   end.
 
@@ -778,7 +808,7 @@ Fixpoint dedup (l : list string) : list string :=
   end.
 
 Definition monitor (c : list op * list pobs) : list string :=
-  dedup (monitor_walk (flat_map rules_of_op (fst c)) None true (fst c) (expand None (snd c))).
+  dedup (monitor_walk (flat_map rules_of_op (fst c)) None true false (fst c) (expand None (snd c))).
 
 Fixpoint monitor_fails_from (n : nat) (cs : list (list op * list pobs)) : list (nat * string) :=
   match cs with
